@@ -12,6 +12,12 @@ CHECKS = {
         text="Random and small-scope operation sequences over Tour, Registry, RegistryContext and RouteContext are compared with reference models after every step; shrunk counterexamples are replay files. Gives 'held on everything explored' for histories up to 40 ops; the structures are small and sequential, so model comparison over many histories is the fitting level.",
         note="Trusted: the reference models in harness/src/engines/model.rs; identity of jobs/actors by pointer as in the code. Insert indices restricted to the callers' domain.",
         design_ref="4/C14"),
+    "C08": dict(
+        engine="population", category="exploration",
+        technique="stateful (model-based) property testing of population histories against a best-so-far reference model (proptest)",
+        text="Generated histories of add/add_all/on_generation/select/ranked over Greedy, Elitism and Rosomaxa populations (generated sizes and phase-driving statistics) are compared after every step with a reference model that remembers the best individual ever offered; sortedness, size bounds, membership, selection non-emptiness, the improvement flag and phase monotonicity are asserted. Found and fixed Greedy::add_all dropping later batch members.",
+        note="Trusted: the best-so-far model and the lexicographic harness objective in harness/src/engines/population.rs; rosomaxa initial_size >= 4.",
+        design_ref="4/C08"),
     "C09": dict(
         engine="order", category="exploration",
         technique="property-based testing of order laws over generated triples (proptest) with a lexicographic specification oracle",
